@@ -78,28 +78,40 @@ def gen_method(rng, name, classes, ret=None):
     return {"name": name, "arguments": args, "return_type": {"type": ret}}, params, CLS.get(ret, ret)
 
 
+OPAQUE = "opaque"
+
+
 class Model:
     def __init__(self):
         self.classes = {}      # name -> {"inst": {m: [(params, ret)]}, "static": {...}, "extends": [...]}
         self.files = {}
 
     def decls(self, cls, m, kind="inst", seen=None):
-        seen = seen or set()
+        """declarations of m for cls: own, then through `extends`, then those every object has (class "" of the configuration and what it extends)"""
+        top = seen is None
+        r = self._decls(cls, m, kind, set() if top else seen)
+        if not r and top and kind == "inst" and "<Object>" in self.classes:
+            r = self._decls("<Object>", m, kind, set())
+        return r
+
+    def _decls(self, cls, m, kind, seen):
         if cls in seen or cls not in self.classes:
             return []
         seen.add(cls)
+        if (kind, m) in self.classes[cls].get("opaque", ()):
+            return OPAQUE
         own = self.classes[cls][kind].get(m)
         if own:
             return own
         for p in self.classes[cls]["extends"]:
-            d = self.decls(p, m, kind, seen)
+            d = self._decls(p, m, kind, seen)
             if d:
                 return d
         return []
 
 
-def gen_config(rng, n=4, prefix="Kc", overloads=True):
-    mdl = Model()
+def gen_config(rng, n=4, prefix="Kc", overloads=True, shipped_dir=None):
+    mdl = shipped_model(shipped_dir) if shipped_dir else Model()
     names = ["%s%d" % (prefix, i) for i in range(n)]
     for i, name in enumerate(names):
         parent = [names[rng.randrange(i)]] if i > 0 and rng.random() < 0.4 else []
@@ -119,12 +131,90 @@ def gen_config(rng, n=4, prefix="Kc", overloads=True):
             d, params, ret = gen_method(rng, mname, names)
             cms.append(d)
             info["static"].setdefault(mname, []).append((params, ret))
+        info["generated"] = True
         mdl.classes[name] = info
         mdl.files["%s.json" % name.lower()] = {"frame": "Builtin", "class": name, "instance_methods": ims, "class_methods": cms, "extends": parent}
     return mdl
 
 
-def judge_decl(params, pos, kw):
+SHIPPED = {"Int": {"Integer"}, "Integer": {"Integer"}, "String": {"String"}, "Float": {"Float"}, "Symbol": {"Symbol"}, "Bool": {"Bool"}, "NilClass": {"NilClass"},
+           "Array": {"Array"}, "Hash": {"Hash"}, "Untyped": ANY, "Number": {"Integer", "Float"}, "Range": {"Range"}}
+SKIP_METHODS = {"class", "p", "puts", "loop", "require", "raise", "sleep", "exit", "new", "print", "lambda", "proc", "attr_accessor", "attr_reader", "attr_writer",
+                "private", "public", "protected", "include", "extend", "append", "push", "concat", "unshift", "replace", "slice", "merge", "merge!", "shift", "yield", "is_a?", "nil?", "instance_of?", "kind_of?", "freeze", "dup", "clone", "tap", "then", "send", "respond_to?"}
+
+
+def shipped_param(a):
+    """Param for one argument of the shipped configuration, or None when its type is outside the oracle's vocabulary"""
+    t = a.get("type")
+    ts = [t] if isinstance(t, str) else list(t or [])
+    if not ts:
+        return None
+    kind = "req"
+    if a.get("is_default"):
+        kind = "opt"
+    if a.get("is_asterisk"):
+        kind = "rest"
+    acc = set()
+    single = len(ts) == 1 and "|" not in ts[0] and "[" not in ts[0]
+    for x in ts:
+        for y in x.split("|"):
+            if y.startswith("**"):
+                return None
+            if y.startswith("*") or y.startswith("?"):
+                if not single:
+                    return None          # the prefixes are only read on a single plain type name
+                if y[0] == "*":
+                    kind = "rest"
+                elif kind == "req":
+                    kind = "opt"
+                y = y[1:]
+            if y.startswith("Default") and y[7:] in ("Int", "String", "Float", "Untyped", "Bool"):
+                if single and kind == "req":
+                    kind = "opt"         # inside a union the variant's default flag does not make the parameter optional
+                y = y[7:]
+            if y not in SHIPPED:
+                return None
+            if SHIPPED[y] is ANY:
+                acc = ANY
+            elif acc is not ANY:
+                acc |= SHIPPED[y]
+    key = a.get("key")
+    if key:
+        kind = "optkey" if kind == "opt" else "key"
+        return Param(kind, acc, ts, key.rstrip(":"))
+    return Param(kind, acc, ts)
+
+
+def shipped_model(cfgdir, mdl=None):
+    """adds the classes of a configuration directory whose methods are within the vocabulary (no blocks, identifier names)"""
+    import glob, os, re
+    mdl = mdl or Model()
+    ident = re.compile(r"^[a-z_][a-z0-9_]*[?!]?$")
+    for f in sorted(glob.glob(os.path.join(cfgdir, "*.json"))):
+        try:
+            d = json.load(open(f))
+        except Exception:
+            continue
+        if d.get("frame") != "Builtin" or "::" in d.get("class", ""):
+            continue
+        info = mdl.classes.setdefault(d["class"] or "<Object>", {"inst": {}, "static": {}, "extends": [], "opaque": set()})
+        info["extends"] += [e for e in (d.get("extends") or []) if "::" not in e]
+        for kind, key in (("inst", "instance_methods"), ("static", "class_methods")):
+            for m in d.get(key) or []:
+                name = m["name"]
+                ps = [shipped_param(a) for a in (m.get("arguments") or [])]
+                rt = (m.get("return_type") or {}).get("type")
+                rts = [rt] if isinstance(rt, str) else list(rt or [])
+                ret = SHIPPED.get(rts[0]) if len(rts) == 1 else None
+                ret = next(iter(ret)) if ret and len(ret) == 1 and not (m.get("return_type") or {}).get("is_conditional") else None
+                if not ident.match(name) or name in SKIP_METHODS or m.get("block_parameters") or any(p is None for p in ps):
+                    info.setdefault("opaque", set()).add((kind, name))       # declared, but outside the oracle: never judged
+                    continue
+                info[kind].setdefault(name, []).append((ps, ret))
+    return mdl
+
+
+def judge_decl(params, pos, kw, strict_rest=False):
     """pos: list of class sets; kw: dict key -> class set.  'fail' | 'fit' | 'free' against one declaration"""
     req = [p for p in params if p.kind == "req"]
     opt = [p for p in params if p.kind == "opt"]
@@ -147,6 +237,8 @@ def judge_decl(params, pos, kw):
         binding.append((keys[k], a))
     res = "fit"
     for p, a in binding:
+        if p.kind == "rest" and not strict_rest:
+            continue               # rest parameters do not check their element type (known finding K28)
         oks = [p.ok(c) for c in a]
         if not any(oks):
             return "fail"
@@ -155,14 +247,17 @@ def judge_decl(params, pos, kw):
     return res
 
 
-def judge(mdl, recv_classes, m, pos, kw, kind="inst"):
+def judge(mdl, recv_classes, m, pos, kw, kind="inst", strict_rest=False):
     per = []
     for c in recv_classes:
         ds = mdl.decls(c, m, kind)
+        if ds is OPAQUE or (c not in mdl.classes):
+            per.append("free")
+            continue
         if not ds:
             per.append("fail")
             continue
-        rs = [judge_decl(p, pos, kw) for p, _ in ds]
+        rs = [judge_decl(p, pos, kw, strict_rest) for p, _ in ds]
         per.append("fit" if "fit" in rs else ("fail" if all(r == "fail" for r in rs) else "free"))
     if all(r == "fail" for r in per):
         return "fail"
@@ -172,35 +267,46 @@ def judge(mdl, recv_classes, m, pos, kw, kind="inst"):
 
 
 class ProgGen:
-    def __init__(self, rng, mdl, errors=True):
-        self.rng, self.mdl, self.errors = rng, mdl, errors
+    def __init__(self, rng, mdl, errors=True, nested=True):
+        self.rng, self.mdl, self.errors, self.nested = rng, mdl, errors, nested
         self.lines = []
         self.vars = {}         # name -> frozenset of classes
         self.expect = {}       # row -> 'fail' | 'fit'
+        self.strict = {}       # row -> verdict when rest parameters check their element type (known finding K28)
         self.info = {}         # row -> description
+        self.ind = 0
+        self.nv = 0
 
     def emit(self, s):
-        self.lines.append(s)
+        self.lines.append("  " * self.ind + s)
         return len(self.lines)
 
-    def value(self, want=None, union_ok=True):
+    def fresh(self):
+        self.nv += 1
+        return "w%d" % self.nv
+
+    def makeable(self):
+        return [c for c, i in self.mdl.classes.items() if "new" in i["static"] and i.get("generated")]
+
+    def value(self, want=None):
         """(code, class set) preferably among `want` classes"""
         rng = self.rng
         cands = [v for v, cs in self.vars.items() if want is None or cs <= want]
         if cands and rng.random() < 0.5:
             v = rng.choice(cands)
             return v, self.vars[v]
-        pool = sorted(want) if want else list(LITS) + list(self.mdl.classes)
+        pool = sorted(want) if want else list(LITS) + self.makeable()
+        pool = [c for c in pool if c in LITS or c in self.makeable()]
+        if not pool:
+            return "1", frozenset(["Integer"])
         c = rng.choice(pool)
         if c in LITS:
             return rng.choice(LITS[c]), frozenset([c])
-        if c in self.mdl.classes:
-            return "%s.new" % c, frozenset([c])
-        return "1", frozenset(["Integer"])
+        return "%s.new" % c, frozenset([c])
 
     def new_var(self):
         rng = self.rng
-        name = "w%d" % len(self.vars)
+        name = self.fresh()
         if rng.random() < 0.35:
             (a, ca), (b, cb) = self.value(), self.value()
             self.emit("%s = true ? %s : %s" % (name, a, b))
@@ -211,35 +317,48 @@ class ProgGen:
         self.vars[name] = cs
         return name
 
-    def call(self):
-        rng, mdl = self.rng, self.mdl
-        # receiver: a variable whose classes are all configured generated classes
-        rc = [v for v, cs in self.vars.items() if cs and all(c in mdl.classes for c in cs)]
-        if not rc:
-            c = rng.choice(list(mdl.classes))
-            v = "w%d" % len(self.vars)
-            self.emit("%s = %s.new" % (v, c))
-            self.vars[v] = frozenset([c])
-            rc = [v]
-        recv = rng.choice(rc)
-        rcs = sorted(self.vars[recv])
-        c0 = rng.choice(rcs)
+    def method_names(self, rcs, kind):
         names = set()
         for c in rcs:
             seen, stack = set(), [c]
             while stack:
                 x = stack.pop()
-                if x in seen or x not in mdl.classes:
+                if x in seen or x not in self.mdl.classes:
                     continue
                 seen.add(x)
-                names |= set(mdl.classes[x]["inst"])
-                stack += mdl.classes[x]["extends"]
-        mode = rng.random()
-        if self.errors and mode < 0.08:
+                names |= set(n for n in self.mdl.classes[x][kind] if n != "new")
+                stack += self.mdl.classes[x]["extends"]
+        return sorted(names)
+
+    def call(self):
+        rng, mdl = self.rng, self.mdl
+        kind = "inst"
+        if rng.random() < 0.15:
+            cs = [c for c in self.makeable() if self.method_names([c], "static")]
+            if cs:
+                kind = "static"
+        if kind == "static":
+            c0 = rng.choice(cs)
+            recv, rcs = c0, [c0]
+        else:
+            rc = [v for v, cs in self.vars.items() if cs and all(c in mdl.classes for c in cs) and self.method_names(sorted(cs), "inst")]
+            if not rc:
+                c = rng.choice(self.makeable())
+                v = self.fresh()
+                self.emit("%s = %s.new" % (v, c))
+                self.vars[v] = frozenset([c])
+                rc = [v]
+            recv = rng.choice(rc)
+            rcs = sorted(self.vars[recv])
+            c0 = rng.choice(rcs)
+        names = self.method_names(rcs, kind)
+        if self.errors and rng.random() < 0.08:
             m = "nope_%d" % len(self.lines)
         else:
-            m = rng.choice(sorted(names))
-        ds = mdl.decls(c0, m) or next((mdl.decls(c, m) for c in rcs if mdl.decls(c, m)), [])
+            m = rng.choice(names)
+        ds = mdl.decls(c0, m, kind)
+        if not ds or ds is OPAQUE:
+            ds = next((mdl.decls(c, m, kind) for c in rcs if mdl.decls(c, m, kind) and mdl.decls(c, m, kind) is not OPAQUE), [])
         pos, kw, codes = [], {}, []
         if ds:
             params, _ = rng.choice(ds)
@@ -265,33 +384,61 @@ class ProgGen:
                     code, cs = self.value(want)
                     kw[p.key] = cs
                     codes.append("%s: %s" % (p.key, code))
-            if wrong and rng.random() < 0.3:
-                if rng.random() < 0.5 and codes and not kw:
+            if wrong and rng.random() < 0.3 and not kw:
+                if rng.random() < 0.5 and codes:
                     codes.pop()
                     pos.pop()
-                elif not kw:
+                else:
                     code, cs = self.value()
                     pos.append(cs)
                     codes.append(code)
-        verdict = judge(mdl, rcs, m, pos, kw)
-        res = "w%d" % len(self.vars)
+        verdict = judge(mdl, rcs, m, pos, kw, kind)
+        strict = judge(mdl, rcs, m, pos, kw, kind, strict_rest=True)
+        res = self.fresh()
         row = self.emit("%s = %s.%s(%s)" % (res, recv, m, ", ".join(codes)) if codes else "%s = %s.%s" % (res, recv, m))
         if verdict != "free":
             self.expect[row] = verdict
-        self.info[row] = {"recv": rcs, "method": m, "pos": [sorted(x) for x in pos], "kw": {k: sorted(v) for k, v in kw.items()}, "verdict": verdict}
-        # result type: known only when it certainly fits and all declarations agree on the return class
+        if strict != verdict:
+            self.strict[row] = strict
+        self.info[row] = {"recv": rcs, "kind": kind, "method": m, "pos": [sorted(x) for x in pos], "kw": {k: sorted(v) for k, v in kw.items()}, "verdict": verdict}
         rets = set()
         for c in rcs:
-            for p, r in mdl.decls(c, m):
+            d = mdl.decls(c, m, kind)
+            if d is OPAQUE:
+                rets.add(None)
+                continue
+            for p, r in d:
                 rets.add(r)
-        if verdict == "fit" and len(rets) == 1:
+        if verdict == "fit" and len(rets) == 1 and None not in rets:
             self.vars[res] = frozenset(rets)
         return row
 
+    def stmt(self, depth=0):
+        rng = self.rng
+        r = rng.random()
+        if self.nested and depth < 2 and r < 0.12:
+            saved = dict(self.vars)
+            style = rng.choice(["if", "each", "unless"])
+            if style == "if":
+                self.emit("if true")
+            elif style == "unless":
+                self.emit("unless false")
+            else:
+                self.emit("3.times do |q%d|" % len(self.lines))
+            self.ind += 1
+            for _ in range(rng.randint(1, 3)):
+                self.stmt(depth + 1)
+            self.ind -= 1
+            self.emit("end")
+            if style == "each":
+                self.vars = saved          # block locals are gone after the block
+            return
+        if r < 0.5 or len(self.vars) < 2:
+            self.new_var()
+        else:
+            self.call()
+
     def program(self, n):
         for _ in range(n):
-            if self.rng.random() < 0.45 or len(self.vars) < 2:
-                self.new_var()
-            else:
-                self.call()
+            self.stmt()
         return "\n".join(self.lines) + "\n"
